@@ -84,6 +84,32 @@ CHECKS["C17"] = dict(
          "calls with wrong arity) are considered",
     design="DESIGN.md section 3 C17")
 
+CHECKS["C14"] = dict(
+    technique="object-aware abstract interpretation (constant-propagation domain, symbolic text) of fmtstr/parse_args/fmtfuncs/copy_with_new_atts/new_with_atts_removed/copy_with_new_str/shared_atts over the finite spelling and attribute domains; guard-key/lookup-key belief rule",
+    text="The formatting API is table driven, so it is evaluated on its whole finite spelling domain from the source: every "
+         "fmtfuncs helper gives the attribute its name says; all spellings of every colour/style value agree; applying any "
+         "attribute (set) to 1-2 run values over a small attribute domain overrides exactly the named attributes and keeps "
+         "text and runs; removal over all 1-3 element name sets deletes exactly those; copy_with_new_str keeps a uniformly "
+         "formatted string's formatting (empty unformatted runs around included); a 24-entry catalogue of unknown, "
+         "contradictory and mis-typed specifications raises ValueError (mixed case: ValueError or acceptance); guard key == "
+         "lookup key for every guarded table lookup of the package; shared_atts over 1-3 run layouts only reports values every "
+         "non-empty run has. Layout size is bounded (<= 3 runs); the per-run maps are checked to have no filter.",
+    note="trusted: the folder/evaluator of sa/ (fail-closed outside its pure subset), dict/str primitives; not decided: "
+         "value validation the code does not attempt (bold='x')",
+    design="DESIGN.md section 3 C14")
+CHECKS["C19"] = dict(
+    technique="object-aware abstract interpretation of __eq__/__hash__/__repr__ and the code they reach on a pool of model values; repr strings re-evaluated through the interpreted fmtfuncs helpers",
+    text="For every ordered pair of a 14-value pool (same text/different formatting, same display/different run boundaries, "
+         "empty runs, False attributes, no runs) f == g equals str(f) == str(g); for every pool value and plain strings "
+         "(own terminal string, bare text, other values' strings) f == s and the reflected s == f equal str(f) == s; hash(f) "
+         "is the hash of exactly the string equality compares (hash treated symbolically); foreign types give "
+         "NotImplemented; repr(f) over all 3^6 style states with colours (plus colour sweeps and multi-run values) parses "
+         "as an expression over fmtfuncs names, literals, calls and + and, evaluated through the same interpreted helper "
+         "code, has the same characters and effective formatting.",
+    note="trusted: Python's reflected-equality protocol, repr(str) yielding a literal, the evaluator of sa/; pools are "
+         "finite samples of run layouts",
+    design="DESIGN.md section 3 C19")
+
 NOT_APPLICABLE = [
     ("C06", "slicing/normalisation is integer arithmetic over run layouts; no structural clause is a necessary condition visible in the code shape"),
     ("C09", "five-way overlap arithmetic across runs; a sound static decision needs inductive integer invariants (solver family)"),
